@@ -28,6 +28,7 @@ type Ctx struct {
 	sumBusy             map[*ssa.Function]bool
 	callers             map[*ssa.Function][]Site
 	valueUse            map[*ssa.Function]bool
+	typeArgsChecked     map[*ssa.Function]bool
 	posProg             *core.Prog
 	posCtx              *Ctx
 	posErr              error
